@@ -73,7 +73,7 @@ def profile_refs(a):
     return fh, ph, lo0, hi0
 
 
-def leg_separatrix_psi(reg_by_eq, eqname):
+def leg_separatrix_psi(reg_by_eq, eqname, ref=None):
     """psi of the separatrix a leg is attached to: the value shared by its radial
     segments 0 and 1 (read from the region's own radial grid)"""
     segs = sorted(reg_by_eq[eqname], key=lambda r: r["radialIndex"])
@@ -83,6 +83,12 @@ def leg_separatrix_psi(reg_by_eq, eqname):
     if len(marks) != 1:
         raise ValueError("leg %s: expected exactly one X-point mark, got %r" % (eqname, marks))
     k = marks[0]
+    if ref is not None:
+        # psi at the leg's own X-point (equals the shared radial-grid value except in a double
+        # null gridded as connected, whose secondary X-point lies on a slightly different
+        # flux surface than the grid line it is pinned to)
+        xp = r0["xPointsAtStart"][k] or r0["xPointsAtEnd"][k]
+        return float(ref.psi(xp[0], xp[1]))
     return float(segs[k]["psi_vals"][0]) if k < len(segs) else float(segs[-1]["psi_vals"][-1])
 
 
@@ -161,7 +167,7 @@ def check_artefact(ctx, a, stats):
             if ph is not None and "pressure" in A and loc in A["pressure"]:
                 psi_eval = psi_here
                 if is_leg:
-                    lp = leg_separatrix_psi(by_eq, reg["eqname"])
+                    lp = leg_separatrix_psi(by_eq, reg["eqname"], ref)
                     psi_eval = lp + sign_out * np.abs(psi_here - lp)
                 inside = (psi_eval >= plo) & (psi_eval <= phi) & ok
                 stats["pressure_points"] += int(inside.sum())
